@@ -4,6 +4,7 @@ import (
 	"fmt"
 	"time"
 
+	"github.com/protolambda/zrnt/eth2/beacon"
 	"github.com/protolambda/zrnt/eth2/beacon/common"
 )
 
@@ -21,4 +22,24 @@ func CheckSlotSpan(slotAfter func(delta time.Duration) common.Slot, slot common.
 		return fmt.Errorf("slot %d is too new, maximum slot is %d", slot, maxSlot)
 	}
 	return nil
+}
+
+// checkpointBlock walks the chain of the given block back to the last block at or before the given slot,
+// i.e. get_checkpoint_block(store, root, epoch) for the start slot of the epoch.
+// It returns false if the walk runs into a block that is not known.
+func checkpointBlock(ch beacon.Chain, root common.Root, slot common.Slot) (common.Root, bool) {
+	for {
+		entry, ok := ch.ByBlock(root)
+		if !ok {
+			return common.Root{}, false
+		}
+		if entry.Step().Slot() <= slot {
+			return root, true
+		}
+		parent, err := entry.ParentRoot()
+		if err != nil || parent == root {
+			return common.Root{}, false
+		}
+		root = parent
+	}
 }
